@@ -360,6 +360,7 @@ def run(ctx):
         search(ctx)
     if not ctx.quick():
         real_processes(ctx)
+    real_hang_during_boot(ctx)
 
 
 def report(ctx, failures):
@@ -415,6 +416,52 @@ def search(ctx):
             break
     ctx.extra["search_scenarios"] = n
     report(ctx, fails)
+
+
+def real_hang_during_boot(ctx):
+    """quick and thorough tier: a replacement worker hangs while it boots (the application import blocks).  The child-side
+    path between fork and the worker's main loop is below the simulated kernel, so this runs on real processes: the master
+    must abort the hung worker after the timeout, replace it, and go on serving with the healthy one meanwhile."""
+    import os
+    import signal as sg
+    import time
+    import lib_realproc as R
+    fails = []
+    for cls, timeout in ((("sync", 2),) if ctx.quick() else (("sync", 2), ("gthread", 2), ("sync", 3))):
+        srv = R.Server(workers=2, worker_class=cls, timeout=timeout, app="hangapp:app")
+        marker = os.path.join(srv.dir, "HANG")
+        try:
+            if srv.wait_workers(2, 15) is None:
+                ctx.broken.append("real processes: %s workers did not start (hang-during-boot scenario)" % cls)
+                continue
+            time.sleep(0.5)
+            first = list(srv.workers()[0])
+            open(marker, "w").close()
+            os.kill(first[0], sg.SIGTERM)                       # its replacement will hang in the import
+            t = srv.wait_for(lambda: "WORKER TIMEOUT" in srv.logtext(), timeout + 8)
+            healthy = srv.request("/", timeout=5) if srv.proc.poll() is None else b""
+            os.unlink(marker)
+            ok2 = srv.wait_for(lambda: len(srv.workers()[0]) == 2 and not srv.workers()[1] and first[0] not in srv.workers()[0], timeout + 10)
+            time.sleep(0.5)
+            alive = srv.proc.poll() is None
+            after = srv.request("/", timeout=5) if alive else b""
+            ctx.count_case(("real-hang-boot", cls, timeout), True)
+            ctx.hist("real_hang_during_boot", "%s t=%d %s" % (cls, timeout, "replaced" if (alive and ok2 is not None) else "NOT replaced"))
+            if t is None and alive:
+                fails.append("%s timeout=%d: a worker hung while booting was not aborted within timeout + 8 s" % (cls, timeout))
+            if not alive:
+                fails.append("%s timeout=%d: the master exited (status %r) when a worker that hung while booting was aborted; "
+                             "a hung worker is killed and replaced, the server keeps serving" % (cls, timeout, srv.proc.poll()))
+            elif ok2 is None:
+                fails.append("%s timeout=%d: the pool did not return to 2 live workers after the hung worker was aborted: %r"
+                             % (cls, timeout, srv.workers()))
+            elif not (healthy.startswith(b"HTTP/1.1 200") and after.startswith(b"HTTP/1.1 200")):
+                fails.append("%s timeout=%d: requests were not answered while / after the hung worker was dealt with (%r / %r)"
+                             % (cls, timeout, healthy[:40], after[:40]))
+        finally:
+            srv.stop()
+    for f in fails:
+        ctx.violation("real processes: " + f, {"kind": "real-hang-boot", "note": f})
 
 
 def real_processes(ctx):
@@ -476,6 +523,18 @@ def real_processes(ctx):
 
 
 def replay(rep):
+    if rep.get("kind") == "real-hang-boot":
+        class C:                                   # a minimal stand-in for the context: collect violations
+            def __init__(self):
+                self.v, self.broken = [], []
+            def quick(self): return False
+            def count_case(self, *a, **k): pass
+            def hist(self, *a, **k): pass
+            def violation(self, what, rep, key=None): self.v.append(what)
+        c = C()
+        real_hang_during_boot(c)
+        print("failures:", c.v, c.broken)
+        return 1 if c.v else 0
     if rep.get("kind") == "real-process":
         print("real-process observation (not replayable in-process):", rep.get("note"))
         return 1
